@@ -136,6 +136,7 @@ struct Net {
 	skipped: usize,
 	swept: [u64; 2],
 	refused: [bool; 2],
+	jump_from: Option<u32>,
 }
 
 impl Net {
@@ -688,21 +689,55 @@ impl Net {
 		let h = self.height();
 		let quiet = self.log.len() == mark && sig == self.last_state && !force && block_txs.as_ref().map(|t| t.is_empty()).unwrap_or(true);
 		if quiet {
-			if block_txs.is_some() && self.idle_from.is_none() { self.idle_from = Some(h); }
+			if block_txs.is_some() && self.idle_from.is_none() { self.idle_from = Some(self.jump_from.unwrap_or(h)); }
 			return;
 		}
 		// something happened: first account for the idle stretch before it
 		let new_events: Vec<Value> = self.log.drain(mark..).collect();
-		if let Some(f) = self.idle_from.take() {
-			self.ev(json!({"ev":"idle","from":f,"h":h - if block_txs.is_some() { 1 } else { 0 }}));
+		if let Some(j) = self.jump_from {
+			// the node was only told about the newest tip: no checkpoint in between
+			if let Some(f) = self.idle_from.take() {
+				if f < j { self.ev(json!({"ev":"idle","from":f,"h":j - 1})); }
+			}
+			self.ev(json!({"ev":"jump","from":j,"h":h}));
+		} else {
+			if let Some(f) = self.idle_from.take() {
+				self.ev(json!({"ev":"idle","from":f,"h":h - if block_txs.is_some() { 1 } else { 0 }}));
+			}
+			if let Some(t) = block_txs { self.ev(json!({"ev":"block","h":h,"txs":t})); }
 		}
-		if let Some(t) = block_txs { self.ev(json!({"ev":"block","h":h,"txs":t})); }
 		self.log.extend(new_events);
 		for i in self.live.clone() {
 			self.ev(json!({"ev":"bal","node":i,"h":h,"items":bals[i]}));
 		}
 		self.ev(json!({"ev":"state","h":h}));
 		self.last_state = sig;
+	}
+
+	/// Connect `n` empty blocks the way a client that only learns the newest tip does (the
+	/// `*SkippingBlocks` delivery styles); only when every live node uses such a style.
+	fn skip_empty(&mut self, n: u32) -> bool {
+		if n < 2 || !self.live.iter().all(|i| self.nodes[*i].connect_style.borrow().skips_blocks()) { return false; }
+		let h0 = self.height();
+		for i in self.live.clone() { connect_blocks(&self.nodes[i], n); }
+		let blocks: Vec<(bitcoin::Block, u32)> = {
+			let b = self.nodes[self.live[0]].blocks.lock().unwrap();
+			b[b.len() - n as usize..].to_vec()
+		};
+		for i in self.frozen.clone() {
+			for b in blocks.iter() { self.nodes[i].blocks.lock().unwrap().push(b.clone()); }
+		}
+		if let Some(a) = self.agent.as_ref() {
+			let owner = self.agent_owner;
+			let (bc, fe, lg) = (self.agent_bc.unwrap(), self.nodes[owner].fee_estimator, self.nodes[owner].logger);
+			for (b, h) in blocks.iter() {
+				let _ = catch_unwind(AssertUnwindSafe(|| { a.block_connected(&b.header, &[], *h, bc, fe, lg); }));
+			}
+		}
+		self.jump_from = Some(h0 + 1);
+		self.checkpoint(Some(Vec::new()), false);
+		self.jump_from = None;
+		true
 	}
 
 	fn minable(&self, m: &MemTx, h_next: u32, in_block: &HashSet<Txid>, spent_now: &HashSet<OutPoint>) -> bool {
@@ -864,7 +899,11 @@ impl Net {
 			"mine" => {
 				let n = op["n"].as_u64().unwrap_or(1);
 				let av = if op["agent_pays"].is_array() { pay_vouts(self, &op["agent_pays"]) } else { htlc_vouts(self, &op["agent_htlcs"]) };
-				for _ in 0..n { self.mine_block(&who, newest, av.as_ref()); }
+				if who.is_empty() && self.skip_empty(n as u32) {
+					// delivered as one jump of the tip
+				} else {
+					for _ in 0..n { self.mine_block(&who, newest, av.as_ref()); }
+				}
 			},
 			"to_expiry" => {
 				// advance until the chosen HTLC of the confirmed commitment has expired (+ off)
@@ -877,6 +916,10 @@ impl Net {
 					Some(t) => {
 						let t = (t as i64 + op["off"].as_i64().unwrap_or(0)) as u32;
 						let mut guard = 0;
+						if who.is_empty() && t > self.height() + 1 {
+							let n = t - self.height();
+							self.skip_empty(n.min(300));
+						}
 						while self.height() < t && guard < 400 { self.mine_block(&who, newest, av.as_ref()); guard += 1; }
 					},
 					None => did = false,
@@ -1143,7 +1186,7 @@ fn build_net(run: u64, cfg: &Value) -> Net {
 		outs: HashMap::new(), conf: HashMap::new(), spent: HashMap::new(), ids: HashMap::new(), mempool: Vec::new(),
 		funding: OutPoint { txid: ftxid, vout }, live: vec![0, 1], frozen: vec![], agent: None, agent_owner: 0, agent_bc: None,
 		commits: [Vec::new(), Vec::new()], commit_logged: false, confirmed_commit: None, pending: Vec::new(), last_state: String::new(),
-		idle_from: None, executed: 0, skipped: 0, swept: [0, 0], refused: [false, false],
+		idle_from: None, executed: 0, skipped: 0, swept: [0, 0], refused: [false, false], jump_from: None,
 	};
 	net.drain_msgs();
 	net.deliver(usize::MAX);
